@@ -193,6 +193,26 @@ fn symmetry(t: &mut Tape, ctx: &mut Ctx, al: gen::Alpha) -> CheckResult {
     let r = comp(ctx, &(&id(&a) | &tw(&b, &c)), &(&tw(&a, &c) | &id(&b)), "hexagon-2 rhs")?;
     require_iso(ctx, "hexagon-2", &m(ctx, &l, "sigma_{A.B,C}")?, &m(ctx, &r, "(id|sigma);(sigma|id)")?, "second hexagon")?;
 
+    // the same two laws in the lax representation, written with its operator sugar (`|`, `>>`)
+    {
+        use crate::labels::obs;
+        use crate::lax_ops::{to_lax_d, LOH};
+        let (lf, lg) = (to_lax_d(&f), to_lax_d(&g));
+        let ltw = |x: &[u32], y: &[u32]| <LOH as SymmetricMonoidal>::twist(obs(x), obs(y));
+        let lid = |x: &[u32]| LOH::identity(obs(x));
+        let lc = |ctx: &mut Ctx, x: &LOH, y: &LOH, what: &str| -> Result<Diagram, Violation> {
+            let r = (x >> y).ok_or_else(|| ctx.fail("law-composable", format!("lax {what}: composition undefined although the types match")))?;
+            m(ctx, &r.to_strict(), what)
+        };
+        let l = lc(ctx, &ltw(&a1, &b1), &(&lg | &lf), "lax sigma;(g|f)")?;
+        let r = lc(ctx, &(&lf | &lg), &ltw(&a2, &b2), "lax (f|g);sigma")?;
+        require_iso(ctx, "lax-twist-naturality", &l, &r, "naturality of the lax symmetry (operator sugar)")?;
+        let r = lc(ctx, &(&ltw(&a, &b) | &lid(&c)), &(&lid(&b) | &ltw(&a, &c)), "lax hexagon rhs")?;
+        let bc = cat(&b, &c);
+        let l = m(ctx, &ltw(&a, &bc).to_strict(), "lax sigma_{A,B.C}")?;
+        require_iso(ctx, "lax-hexagon-1", &l, &r, "first hexagon, lax")?;
+    }
+
     // negative control: the oracle must tell apart diagrams with equal types and label multisets
     if !a.is_empty() {
         let aa = cat(&a, &a);
